@@ -196,7 +196,7 @@ def explore_flow(S, K, want=('C04', 'C05', 'C06')):
     return found
 
 
-def explore_parens(S):
+def explore_parens(S, prop='C04'):
     """optional_paren / convert_expr_with_optional_paren / parenthesize_if_necessary"""
     kt = T.KT
     core = S.core
@@ -229,7 +229,7 @@ def explore_parens(S):
         bd = D.opaque_doc('body')
         doc = m.call_fn(f_opt, [Opaque('arena', ()), bd, indent, tup(Str.lit(delims[0]), Str.lit(delims[1]))])
         S.absorb(m)
-        check_wrapper(ctx, doc, bd, indent, delims, 'C04:optional-paren', lambda mdl: dict(indent=model_int(mdl, indent), delims=delims))
+        check_wrapper(ctx, doc, bd, indent, delims, prop + ':optional-paren', lambda mdl: dict(indent=model_int(mdl, indent), delims=delims))
     ob, ex = S.explore('parens.optional_paren', 'optional_paren: delimiters appear exactly in the broken layout, matching, nested by the given indent', body_opt)
     for lab, mdl, info in ex.violations:
         found.append((lab, info))
@@ -254,18 +254,18 @@ def explore_parens(S):
             S.absorb(m)
             describe = lambda mdl: dict(kind=kt.names[kind], use_braces=model_bool(mdl, braces), suppressed=model_bool(mdl, c.get('break_suppressed')),
                                         mode=model_int(mdl, c.get('mode').disc))
-            ctx.must_hold(rec.get('calls') == 1, 'C04:expression-converted-not-exactly-once', describe)
+            ctx.must_hold(rec.get('calls') == 1, prop + ':expression-converted-not-exactly-once', describe)
             if doc.k == 'opaque':
                 # no wrapper: context passed through unchanged
                 ctx.must_hold(b_and(i_eq(rec['ctx'].get('mode').disc, c.get('mode').disc), i_eq(rec['ctx'].get('break_suppressed'), c.get('break_suppressed'))),
-                              'C04:context-changed-without-wrapper', describe)
+                              prop + ':context-changed-without-wrapper', describe)
                 ctx.witness('unwrapped')
             else:
-                ctx.must_hold(b_not(c.get('break_suppressed')), 'C04:wrapper-added-although-breaks-are-suppressed', describe)
+                ctx.must_hold(b_not(c.get('break_suppressed')), prop + ':wrapper-added-although-breaks-are-suppressed', describe)
                 d = ('{', '}') if ctx.branch(braces) else ('(', ')')
                 exp_mode = 1 if d[0] == '{' else 2
-                ctx.must_hold(i_eq(rec['ctx'].get('mode').disc, exp_mode, 64), 'C04:wrapped-expression-converted-in-wrong-mode', describe)
-                check_wrapper(ctx, doc, D.opaque_doc('expr'), cfg.get('tab_spaces'), d, 'C04:optional-paren', describe)
+                ctx.must_hold(i_eq(rec['ctx'].get('mode').disc, exp_mode, 64), prop + ':wrapped-expression-converted-in-wrong-mode', describe)
+                check_wrapper(ctx, doc, D.opaque_doc('expr'), cfg.get('tab_spaces'), d, prop + ':optional-paren', describe)
                 ctx.witness('wrapped')
         ob, ex = S.explore('parens.expr[%s]' % kt.names[kind], 'convert_expr_with_optional_paren on %s: wrapper only when breaks are allowed, correct mode and delimiters' % kt.names[kind],
                            body_conv, bounds=dict(kind=kt.names[kind]))
@@ -285,12 +285,12 @@ def explore_parens(S):
         doc = m.call_fn(f_par, [pr, c, PyFn(bodyfn, 'body')])
         S.absorb(m)
         describe = lambda mdl: dict(mode=model_int(mdl, c.get('mode').disc), suppressed=model_bool(mdl, c.get('break_suppressed')))
-        ctx.must_hold(rec.get('calls') == 1, 'C04:body-converted-not-exactly-once', describe)
-        ctx.must_hold(i_eq(rec['ctx'].get('mode').disc, 2, 64), 'C04:body-not-converted-in-continued-code-mode', describe)
+        ctx.must_hold(rec.get('calls') == 1, prop + ':body-converted-not-exactly-once', describe)
+        ctx.must_hold(i_eq(rec['ctx'].get('mode').disc, 2, 64), prop + ':body-not-converted-in-continued-code-mode', describe)
         if doc.k == 'opaque':
-            ctx.must_hold(i_eq(c.get('mode').disc, 2, 64), 'C04:no-parentheses-outside-continued-code-mode', describe)
+            ctx.must_hold(i_eq(c.get('mode').disc, 2, 64), prop + ':no-parentheses-outside-continued-code-mode', describe)
         else:
-            check_wrapper(ctx, doc, D.opaque_doc('body'), cfg.get('tab_spaces'), ('(', ')'), 'C04:optional-paren', describe)
+            check_wrapper(ctx, doc, D.opaque_doc('body'), cfg.get('tab_spaces'), ('(', ')'), prop + ':optional-paren', describe)
     ob, ex = S.explore('parens.parenthesize_if_necessary', 'parenthesize_if_necessary: body converted once in CodeCont; wrapper unless already in CodeCont', body_par)
     for lab, mdl, info in ex.violations:
         found.append((lab, info))
